@@ -66,6 +66,17 @@ class LabObjSub(LabObj):
         self.limit = limit
 
 
+class LabObjDerived(AutoParameterObject):
+    """keeps the raw constructor argument in `_root` and exposes a DERIVED value under the public name (documented: `_arg` is looked at first)"""
+
+    def __init__(self, root):
+        self._root = root
+
+    @property
+    def root(self):
+        return 'derived:' + str(self._root).upper()
+
+
 class LabObjSet(AutoParameterObject):
     """parameter object holding a set (the library's persistence helpers explicitly handle sets)"""
 
@@ -122,6 +133,8 @@ def pcanon(v):
         return ['obj', type(v).__name__, d]
     if isinstance(v, LabObjPlain):
         return ['obj', 'LabObjPlain', {'x': pcanon(v.x)}]
+    if isinstance(v, LabObjDerived):
+        return ['obj', 'LabObjDerived', {'root': pcanon(v._root)}]
     if isinstance(v, LabObjSet):
         return ['obj', 'LabObjSet', {'tags': sorted(v.tags)}]
     if isinstance(v, LabChainObj):
@@ -142,6 +155,8 @@ def received_canon(v):
         return ['obj', type(v).__name__, d]
     if isinstance(v, LabObjPlain):
         return ['obj', 'LabObjPlain', {'x': received_canon(v.x)}]
+    if isinstance(v, LabObjDerived):
+        return ['obj', 'LabObjDerived', {'root': received_canon(v._root)}]
     if isinstance(v, LabObjSet):
         return ['obj', 'LabObjSet', {'tags': sorted(v.tags)}]
     if isinstance(v, LabChainObj):
